@@ -7,4 +7,4 @@ IDS=$(python3 -c "import json;print(' '.join(c['property_id'] for c in json.load
 mkdir -p /tmp/runall
 for id in $IDS; do
   echo $id
-done | xargs -P 6 -I{} sh -c "./bin/redactcheck -p {} -tier $TIER > /tmp/runall/{}.out 2>&1; echo {} exit=\$? \$(tail -1 /tmp/runall/{}.out | cut -c1-120)"
+done | xargs -P ${PAR:-6} -I{} sh -c "./bin/redactcheck -p {} -tier $TIER > /tmp/runall/{}.out 2>&1; echo {} exit=\$? \$(tail -1 /tmp/runall/{}.out | cut -c1-120)"
